@@ -32,6 +32,11 @@ impl TypeRegistry {
     }
 
     pub(crate) fn resolved(&self) -> Vec<ItemPath> {
+        #[cfg(pyxis_verif)]
+        if let Some(_guard) = crate::verif::enter(crate::verif::Site::Resolved) {
+            let raw = self.resolved();
+            return crate::verif::reorder(crate::verif::Site::Resolved, raw, |p| p.to_string());
+        }
         self.types
             .iter()
             .filter(|(_, t)| !t.is_predefined() && t.is_resolved())
